@@ -9,7 +9,8 @@
 //! tok <id> <dname> DOPS <k> <dop>* OPT <ignore_space 0|1> <max_grouping_len> WOPS <k> <wop>* IMPL <obs>
 //!   dop := M <nl> <ids..> <nr> <ids..> | U <csv hex> | UN | W
 //!   wop := R <sentence hex> | T | Q | L | I | U | P | C
-//!   obs := <step-result> ( ' ; ' <step-result> )* | '-'    one per failing step and per Q/L/P/C step
+//!   obs := <step-result> ( ' ; ' <step-result> )* | '-'    one per failing step and per Q/L/P/C step; after a DOPS history
+//!          with a mapping, first `K <numRight> <numLeft> <costs row-major>` (the connector after the operations, <= 1024 cells)
 //! ```
 use crate::gen::DictSrc;
 use crate::wire::{guarded, hex, hexs};
@@ -252,6 +253,19 @@ pub fn run_case_hist(dict: Dictionary, dops: &[DOp], hist: &str, ign: bool, maxg
         Some(d) => d,
         None => return obs,
     };
+    // after a history that contains an id mapping: the whole connection-cost table of the resulting dictionary
+    // (C06: "connection cost between mapped ids equals the original cost between the original ids", every connector kind)
+    if dops.iter().any(|op| matches!(op, DOp::Map(_, _)))
+        && vibrato::verif::num_right(&dict) * vibrato::verif::num_left(&dict) <= 1024
+    {
+        match conn_dump(&dict) {
+            Some(c) => obs.push(format!("K {c}")),
+            None => {
+                obs.push("K panic".to_string());
+                return obs;
+            }
+        }
+    }
     let hist = hist.to_string();
     let tokenizer = match guarded(move || -> Result<Tokenizer, ()> {
         let mut t = Tokenizer::new(dict);
